@@ -23,6 +23,7 @@ fn dispatch(op: &str, a: &[&str]) -> Res {
     match op {
         "ping" => Ok(vec!["pong".into()]),
         "rng" => rng::op_rng(a),
+        "rng64" => rng::op_rng64(a),
         "served" => rng::op_served(a),
         "chal_drain" => libops::op_chal_drain(a),
         "alloc_reset" => {
